@@ -4591,8 +4591,8 @@ gj0BCallNotImpl(Foam foam)
 
 struct gjBVal_info gjBValNotImpl = { 0, GJ_NotImpl };
 struct gjBVal_info gjBValInfoTable[] = {
-	{FOAM_BVal_BoolFalse, GJ_Keyword,  0, "true"},
-	{FOAM_BVal_BoolTrue,  GJ_Keyword,  0, "false"},
+	{FOAM_BVal_BoolFalse, GJ_Keyword,  0, "false"},
+	{FOAM_BVal_BoolTrue,  GJ_Keyword,  0, "true"},
 
 	{FOAM_BVal_BoolNot, GJ_Op, JCO_OP_Not },
 	{FOAM_BVal_BoolAnd, GJ_Op, JCO_OP_And },
@@ -4724,7 +4724,7 @@ struct gjBVal_info gjBValInfoTable[] = {
 	{FOAM_BVal_SIntShiftDn,  GJ_Op,       JCO_OP_ShiftDn},
 	{FOAM_BVal_SIntBit,      GJ_Apply,   0,"foamj.Math",      "bit"},
 
-	{FOAM_BVal_SIntNot,      GJ_Op,     JCO_OP_XOr, "0"},
+	{FOAM_BVal_SIntNot,      GJ_Op,     JCO_OP_XOr, "-1"},
 	{FOAM_BVal_SIntAnd,      GJ_Op,     JCO_OP_And},
 	{FOAM_BVal_SIntOr,       GJ_Op,     JCO_OP_Or},
 	{FOAM_BVal_SIntXOr,      GJ_Op,     JCO_OP_XOr},
